@@ -179,9 +179,6 @@ example : Info.check ⟨2, 1, 300, true⟩ 300 = true ∧ Info.check ⟨2, 1, 30
 theorem tag_grammar (str : List Char) (name : String) :
     parseTag str name = tagFinish ((splitOn ',' str).foldl tagClause none) name := rfl
 
-private theorem no_comma_kw (kw ds : List Char) (h1 : ',' ∉ kw) (h2 : ',' ∉ ds) : ',' ∉ kw ++ ds := by
-  simp [h1, h2]
-
 /-- `maxval:N` (any decimal uint64 literal, leading zeros allowed): width `byteCount N`, which is `count = byteCount maxval`. -/
 theorem tag_maxval (ds : List Char) (n : Nat) (name : String) (h : parseUint 64 ds = some n) :
     parseTag ("maxval:".toList ++ ds) name = .ok (some { count := byteCount n, countSet := true, name := name }) := by
